@@ -15,6 +15,7 @@ import Mrm.Spec.Collection
 import Mrm.DriverAccess
 import Mrm.Spec.Classify
 import Mrm.DriverElements
+import Mrm.Model.Serialize
 
 open Lean
 
@@ -157,6 +158,10 @@ def handle (j : Json) : Except String Json := do
   | "elements" =>
     let m ← (j.getObjVal? "msg").bind xmlOfJson
     handleElements m (j.getObjVal? "impl_exposed").toOption
+  | "serialize" =>
+    let d ← (j.getObjVal? "doc").bind xmlOfJson
+    pure (Json.mkObj [("text", .str (serialize d)),
+      ("root_tags", toJson (rootTags d)), ("tokens_roundtrip", .bool (parseTokens (tokens d) == some d))])
   | "spaces" =>
     -- every scalar value the model treats as whitespace (the table behind `pyStrip`)
     let cps := (List.range 0x110000).filter (fun n => (n < 0xD800 || n > 0xDFFF) && pyIsSpace (Char.ofNat n))
